@@ -153,6 +153,9 @@ def generic_t1(chk, wc, mod, tier, seed):
             else:
                 small = c
             (o2, m2, or2, _s2) = run_cases(wc, pid, [small], sub=sub)[0]
+            if or2 == "ok" and _s2:
+                # not reproduced on re-run (timing-dependent): report the failing run itself
+                small, o2, m2, or2 = c, obs, model, oracle
             body = {
                 "sub": sub,
                 "case": small,
